@@ -64,9 +64,9 @@ def afterSync (gs : List Gen) (c k : Nat) (out : VOut) (hdrSalt ltxSalt : Nat) :
 theorem startup_verify_then_sync_restores (gs : List Gen) (hd : SaltsDistinct gs) (c k : Nat) (g l : Gen)
     (hc : gs[c]? = some g) (hl : gs.getLast? = some l)
     (frames : List PFrame) (pages : List (Nat × Nat)) :
-    afterSync gs c k (verify ⟨false, ⟨g.salt, k, pages⟩, l.salt, frames, false, true⟩) l.salt g.salt = source gs := by
+    afterSync gs c k (verify ⟨false, ⟨g.salt, k, pages⟩, l.salt, frames, false, true, false⟩) l.salt g.salt = source gs := by
   unfold afterSync
-  cases hv : (verify ⟨false, ⟨g.salt, k, pages⟩, l.salt, frames, false, true⟩).snapshot with
+  cases hv : (verify ⟨false, ⟨g.salt, k, pages⟩, l.salt, frames, false, true, false⟩).snapshot with
   | true => simp
   | false =>
     have := fresh_incremental_sound gs hd c k g l hc hl frames pages hv
@@ -80,9 +80,9 @@ theorem running_verify_then_sync_restores (gs : List Gen) (g n : Gen) (hlast : g
     (frames : List PFrame) (pages : List (Nat × Nat)) (se : Bool)
     (hsalt : n.salt ≠ g.salt) (hlen : g.frames.length ≤ frames.length) :
     afterSync (gs ++ [n]) (gs.length - 1) g.frames.length
-      (verify ⟨false, ⟨g.salt, g.frames.length, pages⟩, n.salt, frames, se, false⟩) n.salt g.salt = source (gs ++ [n]) := by
+      (verify ⟨false, ⟨g.salt, g.frames.length, pages⟩, n.salt, frames, se, false, false⟩) n.salt g.salt = source (gs ++ [n]) := by
   unfold afterSync
-  cases hv : (verify ⟨false, ⟨g.salt, g.frames.length, pages⟩, n.salt, frames, se, false⟩).snapshot with
+  cases hv : (verify ⟨false, ⟨g.salt, g.frames.length, pages⟩, n.salt, frames, se, false, false⟩).snapshot with
   | true => simp
   | false =>
     have := running_own_checkpoint_sound gs g n hlast frames pages se hsalt hlen hv
@@ -118,7 +118,7 @@ theorem same_generation_decision_sees_one_frame (i : VIn) (fr : List PFrame)
     the replica keeps the old page 3. -/
 def rbOld : List (Nat × Nat) := [(2, 10), (3, 11), (4, 12)]
 def rbNew : List Gen := [⟨1, [(2, 10), (3, 99), (4, 12), (5, 50)]⟩]
-def rbIn : VIn := ⟨false, ⟨1, 3, rbOld⟩, 1, overlay rbNew, false, true⟩
+def rbIn : VIn := ⟨false, ⟨1, 3, rbOld⟩, 1, overlay rbNew, false, true, false⟩
 
 theorem rollback_identical_last_frame_undetected :
     (verify rbIn).snapshot = false ∧ (verify rbIn).idx = 3 ∧
@@ -126,7 +126,7 @@ theorem rollback_identical_last_frame_undetected :
 
 /-! Non-vacuity: a world where start-up continues incrementally and one where it snapshots. -/
 example : afterSync [⟨1, [(2, 10), (3, 11), (4, 12), (5, 99)]⟩] 0 3
-    (verify ⟨false, ⟨1, 3, [(2, 10), (3, 11), (4, 12)]⟩, 1, [⟨1, 2, 10⟩, ⟨1, 3, 11⟩, ⟨1, 4, 12⟩, ⟨1, 5, 99⟩], false, true⟩) 1 1 5 = 99 := by decide
+    (verify ⟨false, ⟨1, 3, [(2, 10), (3, 11), (4, 12)]⟩, 1, [⟨1, 2, 10⟩, ⟨1, 3, 11⟩, ⟨1, 4, 12⟩, ⟨1, 5, 99⟩], false, true, false⟩) 1 1 5 = 99 := by decide
 example : (verify f2In).snapshot = true ∧ afterSync f2World 0 3 (verify f2In) 2 1 5 = 99 := by decide
 
 end C04
